@@ -293,6 +293,13 @@ def r4(rr, repo):
 def r5(rr, repo):
     mod, fn, paths = fn_paths(repo, 'refresh_logfiles', unroll_for=1)
     rr.paths += len(paths)
+    # a refresh looks at the directory: the file list it re-anchors the reader in is the one a scan has just produced - unconditionally, after the old position was noted and before the list is walked
+    scans = [c for c in q.calls_in(fn, into_functions=False) if U(c.func) == 'self.scan_logfiles']
+    walks = [n for n in walk_scope(fn) if isinstance(n, ast.For) and 'logfiles' in U(n.iter)]
+    olds = [n for n in walk_scope(fn) if isinstance(n, ast.Assign) and 'old_' in U(n.targets[0])]
+    oks = len(scans) == 1 and not q.guards_of(scans[0], stop=fn) and bool(walks) and scans[0].lineno < walks[0].lineno and all(o.lineno < scans[0].lineno for o in olds)
+    rr.ob('refresh_logfiles rescans the directory (once, unconditionally, after noting where the reader was and before walking the new list)', oks, mod, scans[0] if scans else fn,
+          witness=f'{len(scans)} scan call(s); list walked at line {walks[0].lineno if walks else None}', key='refresh-rescans')
     rows = set()
     for p in paths:
         same = [v for kk, v in p.pc if kk.startswith('eq(') and kk.endswith('.path)') and '__elem__' in kk]
@@ -729,6 +736,9 @@ def r8(rr, repo):
     for c in stats:
         tries = [a for a in ancestors(c) if isinstance(a, ast.Try) and any(x is c for st_ in a.body for x in ast.walk(st_))]
         caught = any(h.type is None or any(nm in U(h.type) for nm in ('FileNotFoundError', 'OSError', 'Exception')) for t in tries for h in t.handlers)
+        skips = any(isinstance(h.body[-1], ast.Continue) for t in tries for h in t.handlers if h.body)
+        rr.ob('... skipped for good: the handler goes on with the next name (it does not fall through to listing the file with a size left over from another one)', (not caught) or skips, mod, c,
+              witness='the handler ends in `continue`' if skips else 'the handler does not end in `continue`', key='scan-vanishing-file-skipped')
         rr.ob('a file that vanishes between the directory listing and the look at its size is skipped (the scan does not fail)', caught, mod, c, witness=U(c)[:60] + ('' if caught else ' is not inside a try that catches FileNotFoundError'), key='scan-survives-vanishing-file')
         g = q.guards_of(c, stop=scan)
         gt = ' && '.join(U(t) for t, pol in g if pol)
